@@ -547,6 +547,9 @@ func (m *Model) Deliver(kind, ref string) {
 			}
 			continue
 		}
+		if n.Relaxed {
+			continue
+		}
 		idx := -1
 		for i, d := range n.Events {
 			if defMatches(d, kind, ref) {
@@ -609,4 +612,26 @@ func (m *Model) Listening() []string {
 	}
 	sort.Strings(out)
 	return out
+}
+
+// ReleaseCatch lets every token waiting at catch event id continue (used for catch events whose firing
+// the property only bounds: the model follows the engine's own LeaveTrace there).
+func (m *Model) ReleaseCatch(id string) bool {
+	var rest, moved []*mtoken
+	for _, t := range m.tokens {
+		if t.node.ID == id && t.node.Kind == "catch" && !t.stuck {
+			moved = append(moved, t)
+		} else {
+			rest = append(rest, t)
+		}
+	}
+	if len(moved) == 0 {
+		return false
+	}
+	m.tokens = rest
+	for _, t := range moved {
+		m.leaveAll(t.node, t.act)
+	}
+	m.settle()
+	return true
 }
